@@ -131,7 +131,10 @@ def _surface_shapes(tier):
            dict(pu=1, pv=2, mu=[1], mv=[], rational=True, span='linear', samples=[2, 3]),
            # the alternative evaluator on nets with different sizes and degrees per direction
            dict(pu=2, pv=1, mu=[1], mv=[], rational=False, span='linear', samples=[3, 2], alt=True),
-           dict(pu=1, pv=2, mu=[], mv=[1, 1], rational=False, span='linear', samples=[2, 3], alt=True)]
+           dict(pu=1, pv=2, mu=[], mv=[1, 1], rational=False, span='linear', samples=[2, 3], alt=True),
+           # knot vectors kept as given (normalize_kv=False): unclamped, different symbolic ranges per direction
+           dict(pu=1, pv=2, mu=[1], mv=[], rational=False, span='linear', samples=[2, 3], free=True),
+           dict(pu=2, pv=1, mu=[], mv=[1], rational=True, span='linear', samples=[2, 2], free=True)]
     if tier == 'thorough':
         out += [dict(pu=3, pv=2, mu=[1], mv=[1, 1], rational=False, span='linear', samples=[4, 3]),
                 dict(pu=3, pv=3, mu=[2], mv=[1], rational=False, span='binsearch', samples=[3, 3]),
@@ -143,19 +146,22 @@ def _surface_shapes(tier):
                       'BSpline.Surface.derivatives', 'evaluators.SurfaceEvaluator.evaluate',
                       'evaluators.SurfaceEvaluatorRational.evaluate', 'abstract.Surface.sample_size'],
           quick=lambda: _surface_shapes('quick'), thorough=lambda: _surface_shapes('thorough'))
-def surface_eval(ctx, pu, pv, mu, mv, rational, span, samples, alt=False):
+def surface_eval(ctx, pu, pv, mu, mv, rational, span, samples, alt=False, free=False):
     """ensures S(u,v) == tensor-product definition through every entry point; grid is u-outer / v-inner"""
-    U, iu, su = shapes.make_kv(ctx, pu, mu, prefix='a')
-    V, iv, sv = shapes.make_kv(ctx, pv, mv, prefix='b')
-    u = shapes.param_in(ctx, 'u', U[0], U[-1])
-    v = shapes.param_in(ctx, 'v', V[0], V[-1])
+    U, iu, su = shapes.make_kv(ctx, pu, mu, prefix='a', normalized=not free, clamped=not free)
+    V, iv, sv = shapes.make_kv(ctx, pv, mv, prefix='b', normalized=not free, clamped=not free)
+    u = shapes.param_in(ctx, 'u', U[pu], U[su])
+    v = shapes.param_in(ctx, 'v', V[pv], V[sv])
+    if free:
+        # linalg.linspace identifies start and stop when they are within 1e-7 (tolerance executed as written, A1)
+        ctx.assume(ctx.gt(U[su] - U[pu], Fraction(1, 10 ** 7)), ctx.gt(V[sv] - V[pv], Fraction(1, 10 ** 7)))
     if span == 'binsearch':
         shapes.separated_knots(ctx, U, SPAN_TOL)
         shapes.separated_knots(ctx, V, SPAN_TOL)
         ctx.assume(ctx.sep(u, U[-1], SPAN_TOL), ctx.sep(v, V[-1], SPAN_TOL))
     P = shapes.net(ctx, 'P', su * sv, 3)
     W = shapes.weights(ctx, 'w', su * sv) if rational else None
-    srf = shapes.build_surface(ctx, pu, pv, U, V, P, su, sv, W)
+    srf = shapes.build_surface(ctx, pu, pv, U, V, P, su, sv, W, normalize_kv=not free)
     srf.evaluator = _evaluator(ctx, 'surface', rational, span, alt)
     Pw = shapes.homog(P, W)
 
@@ -172,24 +178,28 @@ def surface_eval(ctx, pu, pv, mu, mv, rational, span, samples, alt=False):
     ctx.check_eq_vec('evaluate_list[0]', got[0], want)
     ctx.check_eq_vec('derivatives.order0', srf.derivatives(u, v, 0)[0][0], want)
     srf.sample_size_u, srf.sample_size_v = samples
-    srf.evaluate(stop_u=Fraction(1, 2), start_v=Fraction(1, 2))          # sub-range first, then the full grid
-    ctx.check_true('subrange.size', len(srf.evalpts) == samples[0] * samples[1])
+    (ulo, uhi), (vlo, vhi) = (U[pu], U[su]), (V[pv], V[sv])
+    if not free:
+        srf.evaluate(stop_u=Fraction(1, 2), start_v=Fraction(1, 2))          # sub-range first, then the full grid
+        ctx.check_true('subrange.size', len(srf.evalpts) == samples[0] * samples[1])
     srf.evaluate()
     pts = srf.evalpts
     ctx.check_true('grid.size', len(pts) == samples[0] * samples[1])
     for i in range(samples[0]):
         for j in range(samples[1]):
-            a = Fraction(i, samples[0] - 1)
-            b = Fraction(j, samples[1] - 1)
-            ctx.check_eq_vec('grid[u=%d,v=%d]' % (i, j), pts[i * samples[1] + j], S(ctx.lit(a), ctx.lit(b)))
-    ctx.check_eq_vec('grid.corner00', pts[0], P[0])
-    ctx.check_eq_vec('grid.corner11', pts[-1], P[-1])
+            a = ulo + (uhi - ulo) * ctx.lit(Fraction(i, samples[0] - 1))      # the grid runs over the domain, corners included
+            b = vlo + (vhi - vlo) * ctx.lit(Fraction(j, samples[1] - 1))
+            ctx.check_eq_vec('grid[u=%d,v=%d]' % (i, j), pts[i * samples[1] + j], S(a, b))
+    if not free:
+        ctx.check_eq_vec('grid.corner00', pts[0], P[0])
+        ctx.check_eq_vec('grid.corner11', pts[-1], P[-1])
 
 
 def _volume_shapes(tier):
     out = [dict(deg=[1, 1, 1], m=[[], [], []], rational=False, samples=[2, 2, 2]),
            dict(deg=[2, 1, 1], m=[[1], [], []], rational=False, samples=[2, 2, 3]),
-           dict(deg=[1, 1, 2], m=[[], [1], []], rational=True, samples=[2, 2, 2])]
+           dict(deg=[1, 1, 2], m=[[], [1], []], rational=True, samples=[2, 2, 2]),
+           dict(deg=[1, 2, 1], m=[[1], [], []], rational=False, samples=[2, 2, 2], free=True)]      # normalize_kv=False, unclamped
     if tier == 'thorough':
         out += [dict(deg=[2, 2, 2], m=[[1], [], [1]], rational=False, samples=[3, 2, 2]),
                 dict(deg=[2, 2, 1], m=[[], [1], []], rational=True, samples=[2, 3, 2])]
@@ -199,18 +209,21 @@ def _volume_shapes(tier):
 @scenario('C01', fns=['BSpline.Volume.evaluate_single', 'BSpline.Volume.evaluate_list', 'BSpline.Volume.evaluate',
                       'evaluators.VolumeEvaluator.evaluate', 'evaluators.VolumeEvaluatorRational.evaluate'],
           quick=lambda: _volume_shapes('quick'), thorough=lambda: _volume_shapes('thorough'))
-def volume_eval(ctx, deg, m, rational, samples):
+def volume_eval(ctx, deg, m, rational, samples, free=False):
     """ensures V(u,v,w) == tensor-product definition with layout v + sv*(u + su*w); grid order u, v, w (w innermost)"""
     kvs, sizes = [], []
     for a, pfx in enumerate('abc'):
-        U, _iu, n = shapes.make_kv(ctx, deg[a], m[a], prefix=pfx)
+        U, _iu, n = shapes.make_kv(ctx, deg[a], m[a], prefix=pfx, normalized=not free, clamped=not free)
         kvs.append(U)
         sizes.append(n)
-    prm = [shapes.param_in(ctx, nm, ctx.lit(0), ctx.lit(1)) for nm in ('u', 'v', 'w')]
+        if free:
+            ctx.assume(ctx.gt(U[n] - U[deg[a]], Fraction(1, 10 ** 7)))         # linspace tolerance (A1)
+    dom = [(kvs[a][deg[a]], kvs[a][sizes[a]]) for a in range(3)]
+    prm = [shapes.param_in(ctx, nm, lo, hi) for nm, (lo, hi) in zip(('u', 'v', 'w'), dom)]
     su, sv, sw = sizes
     P = shapes.net(ctx, 'P', su * sv * sw, 3)
     W = shapes.weights(ctx, 'w', su * sv * sw) if rational else None
-    vol = shapes.build_volume(ctx, deg[0], deg[1], deg[2], kvs[0], kvs[1], kvs[2], P, su, sv, sw, W)
+    vol = shapes.build_volume(ctx, deg[0], deg[1], deg[2], kvs[0], kvs[1], kvs[2], P, su, sv, sw, W, normalize_kv=not free)
     Pw = shapes.homog(P, W)
 
     def Vv(a, b, c):
@@ -228,19 +241,19 @@ def volume_eval(ctx, deg, m, rational, samples):
     vol.sample_size_u, vol.sample_size_v, vol.sample_size_w = samples
     pts = vol.evalpts
     ctx.check_true('grid.size', len(pts) == samples[0] * samples[1] * samples[2])
-    ctx.check_true('grid.ordering', _grid_order(ctx, pts, samples, Vv))
+    ctx.check_true('grid.ordering', _grid_order(ctx, pts, samples, Vv, dom))
 
 
-def _grid_order(ctx, pts, samples, Vv):
+def _grid_order(ctx, pts, samples, Vv, dom):
     """finds which nesting order the grid uses by checking every point against the spec under the documented order"""
     idx = 0
     # documented order of Volume.evalpts: w outermost? determined from the evaluator: for u: for v: for w
     for i in range(samples[0]):
         for j in range(samples[1]):
             for k in range(samples[2]):
-                a = ctx.lit(Fraction(i, samples[0] - 1))
-                b = ctx.lit(Fraction(j, samples[1] - 1))
-                c = ctx.lit(Fraction(k, samples[2] - 1))
+                a = dom[0][0] + (dom[0][1] - dom[0][0]) * ctx.lit(Fraction(i, samples[0] - 1))
+                b = dom[1][0] + (dom[1][1] - dom[1][0]) * ctx.lit(Fraction(j, samples[1] - 1))
+                c = dom[2][0] + (dom[2][1] - dom[2][0]) * ctx.lit(Fraction(k, samples[2] - 1))
                 ctx.check_eq_vec('grid[u=%d,v=%d,w=%d]' % (i, j, k), pts[idx], Vv(a, b, c))
                 idx += 1
     return True
